@@ -27,7 +27,7 @@ CLAIMS = {
        "preserved because no function outside init stores to them), statements start from a clean error state, RunContext turns ErrReturn into a normal result. One known finding (runChanStmt ignores the ok-assignment error). "
        "Over the activation trace: if/else-if/else evaluates its conditions in source order and runs exactly the first branch whose condition is truthy (else the else branch); switch evaluates its subject first, compares case expressions with vm.equal until the first equal one and runs exactly that case body (else the default); "
        "the outcome of the chosen body - value, error, break/continue/return signal - is the outcome of the statement (a switch or if that swallows a break fails); a block stops at its first failing statement and reports that statement's outcome, break/continue/return statements produce their signal; loops stop at the first signal and hand return values up; for-over-map presents the k-th reported key to the k-th iteration and visits every key. "
-       "Two known findings (runChanStmt ignores the ok-assignment error; try/catch swallows return/break/continue - both pinned by the existing suite). Not decided: index order of for-in over slices as a postcondition, that the C-for post expression runs after continue.",
+       "Two known findings (runChanStmt ignores the ok-assignment error; try/catch swallows return/break/continue - both pinned by the existing suite). for-in over a slice presents element k (unwrapped) to the k-th body run and visits every element unless left by break/return/error; the C-style loop evaluates its post expression after every body run that went on - also after continue - before anything else.",
   note=TRUST + "Assumed: VM-function protocol (a function value with the VM signature never returns a sentinel as its error); env error values are distinct objects from the vm sentinels.",
   technique="contract-based deductive verification: sentinel-discipline postconditions and loop invariants, VCs from go/ssa, z3/cvc5",
   ref="4 C08"),
@@ -45,7 +45,7 @@ CLAIMS = {
        "(loop invariants over the local rv/err), callDeferredFunc changes only err; newError/newStringError results are non-nil *vm.Error values; recoverFunc leaves err alone when nothing panicked. runTryStmt/runDeferStmt are covered for scope, sentinel and cancellation discipline (C04/C08/C02). "
        "Over the activation trace: the try block runs first, catch exactly when it left a (non-interrupt) error with the error bound to the catch variable in the statement's scope, finally after a try that succeeded or whose error was caught and handled, the outcome is that of the last block run; "
        "runDefers runs every registered call exactly once, in reverse order of registration (ncalls == len(defers), k-th call is defers[len-1-k]), and the first error a deferred call raises surfaces exactly when the body did not fail; a throw statement always leaves an error (the proof found `throw \"\"` to be a no-op; repaired by a fix: commit). "
-       "Known finding (shared with C08): the catch block also catches return/break/continue signals. Not decided: that defer arguments are captured at the defer statement, deferred calls at top level.",
+       "Known finding (shared with C08): the catch block also catches return/break/continue signals. A defer statement evaluates function and arguments at the statement (makeCallArgs in the current scope), registers exactly that call after the earlier ones, runs nothing, and registers nothing when anything fails. Not decided: deferred calls at top level (RunContext).",
   note=TRUST + "Assumed: VM-function protocol; reflect.Value.Call semantics.",
   technique="contract-based deductive verification: loop invariants over the deferred-call runner, VCs from go/ssa, z3/cvc5",
   ref="4 C09"),
@@ -140,7 +140,8 @@ CLAIMS = {
        "makeCallArgs/callVMFunctionDirect/anonCallExpr: the k-th evaluation of the activation is of the k-th operand in source order (evalsPrefix as loop invariant and postcondition: so no operand is evaluated twice or out of order), evaluation stops at the first operand that failed (okButLast), "
        "&& / || evaluate the right operand only when the left does not decide (ncalls()==1 exactly in the short-circuit case), ?: evaluates exactly one branch chosen by the truthiness of the condition, ?? evaluates the right side only when the left is nil or failed. "
        "A change that evaluates an operand twice, swaps two operands, evaluates after an error or evaluates a skipped operand fails a named postcondition or invariant. "
-       "NOT yet under trace contracts: multi-assignment right-hand sides (runLetsStmt), slice-expression bounds, go/defer call forms, the reflect (>=5 parameters, variadic) call path beyond makeCallArgs, conversion-error ordering for Go parameters.",
+       "multi-assignment: all right-hand sides are evaluated first, each once, left to right, before any target is assigned; `go` evaluates its arguments before spawning (C16) and `defer` evaluates them at the defer statement (C09). "
+       "NOT yet under trace contracts: slice-expression bounds, the order of the target assignments, the reflect (>=5 parameters, variadic) call path beyond makeCallArgs, conversion-error ordering for Go parameters.",
   note=TRUST + "The trace is local to an activation and is never assumed about a callee (a callee's trace-based postcondition is proved where it is defined and not used at call sites). Assumed: AST well-formedness (len(Keys)==len(Values)).",
   technique="contract-based deductive verification: ghost activation trace with loop invariants over evaluation order, z3/cvc5",
   ref="4 C07"),
@@ -153,16 +154,18 @@ CLAIMS = {
   technique="contract-based deductive verification: operator postconditions over unwrap(operand), z3/cvc5",
   ref="4 C20"),
  'C03': dict(
-  text="Three groups of obligations over the real parser package; the goyacc LR driver and the semantic actions inside yyParse are trusted. "
+  text="Four groups of obligations over the real parser package; only the goyacc LR driver loop is trusted. "
        "(1) LR table lemma: the constant tables goyacc compiled into parser.go (yyPact, yyAct, yyChk, yyDef, yyExca) are read from the typed AST of /repo's working tree, the productions from parser.go.y (numbering cross-checked against yyR2); lrAction(state, token) transcribes the driver's table lookup; "
        "for every operator production p (binary, unary, ?:, ??, in) and every token b that can continue an expression (all binary operators, ?, ??, in, and the postfix starters ( [ .), ONE obligation: in EVERY LR state in which p is reducible the action on b is what the operator table of the property statement dictates "
        "(optable pragmas in parser/zz_contracts_verif.go, not the %left/%right lines): reduce p when p binds tighter or equally-and-left-associative, shift otherwise; 575 obligations, solver-evaluated over the table entries; covers all contexts and nesting depths because an LR decision depends on the state only. "
        "A failed fact (p, b) is replayed on the real parser: `a OP1 b OP2 z` and its explicitly parenthesised form are parsed with parser.ParseSrc and the trees compared (replay/lrtable). One known finding: chained `in` is right-associative (pinned by the existing suite). "
-       "(2) Operator recognition: 44 postconditions of Scanner.Scan generated from the token table (every two-character operator, `...`, `= <-`, every single-character token, each first character followed by something else): if the source at the token start (ghost posOffset = offset where Scan took the token's position) spells the operator, Scan returns exactly that token, its literal, and advances past it. "
-       "(3) Literals: toNumber's contract fixes which digits, base and sign reach strconv for every spelling (0x/-0x base 16, 0b/-0b base 2, '.' or exponent float64, else base 10) and that a strconv error is returned unchanged with the nil value; the proof found that -0b literals were rejected (repaired by a fix: commit). "
-       "NOT decided: that each semantic action puts the operands into the slots the production names (action extraction from yyParse was not built), keyword recognition through the opName map, the escape table of scanString and the digit grouping of scanNumber, that the literal actions report toNumber's error, the second clause 'the same value'.",
-  note=TRUST + "Assumed: goyacc's driver implements lrAction and hands each action the slots of its production; the step from 'every precedence decision is the table's' to 'the tree of every expression' is the standard LR argument (not machine-checked); strconv.ParseInt/ParseFloat are the oracle for what a digit string denotes; unicode.IsLetter is false on ASCII non-letters.",
-  technique="contract-based deductive verification: ground lemma over the compiled LR tables against the property's operator table; postconditions on Scan and toNumber; z3/cvc5; replay of table facts on the real parser",
+       "(2) Semantic actions: on every run the `case N:` bodies of yyParserImpl.Parse are extracted mechanically from parser.go (byte for byte, into an in-memory overlay; dropped: the driver loop, the `yyDollar = yyS[...]` slice statement - a length precondition instead -, yyVAL becomes a pointer parameter) and verified like any other function against contracts keyed by the PRODUCTION TEXT and generated from a table of the language's node shapes: "
+       "51 productions - all 17 binary operators, the 5 unary forms, ?:, ??, in, parentheses, index, member, identifier, len, the 10 slice forms, the 4 call forms, the two number literal forms - build a fresh node of the right type with each operand in the slot the production names (LHS/RHS/Expr/Item/Index/Begin/End/Cap/SubExprs/VarArg, operator string); a swapped $1/$3 or a wrong operator string fails `yyAction_N/post/node`. The number literal actions pass exactly the spelled digits (with the '-' of the production) to toNumber and store its result. "
+       "(3) Operator recognition: 44 postconditions of Scanner.Scan generated from the token table (every two-character operator, `...`, `= <-`, every single-character token, each first character followed by something else): if the source at the token start (ghost posOffset = offset where Scan took the token's position) spells the operator, Scan returns exactly that token, its literal, and advances past it. "
+       "(4) Literals: toNumber's contract fixes which digits, base and sign reach strconv for every spelling (0x/-0x base 16, 0b/-0b base 2, '.' or exponent float64, else base 10) and that a strconv error is returned unchanged with the nil value; the proof found that -0b literals were rejected (repaired by a fix: commit). "
+       "NOT decided: the remaining ~115 productions (statements, maps, make/new, function literals, lets, channels), keyword recognition through the opName map, the escape table of scanString and the digit grouping of scanNumber, that a toNumber error reaches yylex.Error, the second clause 'the same value'.",
+  note=TRUST + "Assumed: goyacc's driver implements lrAction and hands action N exactly the slots of production N (yyDollar[1..k]); the step from 'every precedence decision is the table's and every action builds its node' to 'the tree of every expression' is the standard LR argument (not machine-checked); strconv.ParseInt/ParseFloat are the oracle for what a digit string denotes; unicode.IsLetter is false on ASCII non-letters.",
+  technique="contract-based deductive verification: ground lemma over the compiled LR tables against the property's operator table; postconditions on the extracted semantic actions, on Scan and on toNumber; z3/cvc5; replay of table facts on the real parser",
   ref="8.3 C03"),
  'C16': dict(
   text="Deductive proof of the interpreter's channel GLUE - what the vm itself does around Go's channel operations - over the activation trace (with reflect.Select and the element conversion recorded in it): "
@@ -175,6 +178,26 @@ CLAIMS = {
   note=TRUST + "Assumed: Go channel semantics (FIFO, exactly-once delivery, close semantics) as implemented by the runtime behind reflect.Select/Close; the encoding of a Select outcome in the trace (0 value arrived or send done, 1 closed, 2 interrupted) is a transcription of reflect.Select's documented results.",
   technique="contract-based deductive verification: call-site and trace postconditions on the channel evaluators, z3/cvc5",
   ref="8.3 C16"),
+ 'C10': dict(
+  text="Partial deductive proof for the container evaluators, over the activation trace (operand evaluations, reflect stores, conversions): "
+       "READS - x[i] on a slice or array with an integer index reads exactly element i of what x denotes (unwrapped) when 0 <= i < len, and is an error with a nil result when the index is out of range (negative, equal to or beyond the length; strings alike); any other operand kind is an error; "
+       "a map read never fails: a nil map, a key that cannot be converted to the key type, an unhashable key and a missing key read as nil, a present key reads the stored value; `in` is membership by vm.equal (shared with C06); "
+       "WRITES - x[i] = v on a slice: in range, exactly ONE reflect store happens, into element i, of v converted to that element's type; at i == len the converted value is appended (element type of the slice) and assigned back; "
+       "every error (non-numeric or out-of-range index, unassignable element, inconvertible value) leaves the container untouched: no store is made; m[k] = v writes only with a converted, hashable key and never writes the map when it fails; delete(m, k) removes (SetMapIndex with the zero Value) only a converted hashable key from the map m denotes and does not write on error. "
+       "NOT decided: slicing (2- and 3-index) and storage sharing, append through + / +=, len, string element assignment, struct fields (read back / unknown field / conversion), reference semantics on assignment and call, typed literals and make; "
+       "that the converted value HAS the declared type is reflect's Convert/MakeSlice/Zero typing (not stated as a postcondition of convertReflectValueToType beyond its identity and Go-conversion cases).",
+  note=TRUST + "Assumed: reflect.Value.Index/MapIndex/Set/SetMapIndex/Append behave as documented (element i, key lookup, store, append); a reflect store is the only way the evaluators change a container (the trace records Set, SetMapIndex and Append only in functions that opt in).",
+  technique="contract-based deductive verification: postconditions over the activation trace of reflect reads/stores, z3/cvc5",
+  ref="8.3 C10"),
+ 'C11': dict(
+  text="Thin, partial deductive proof of four links of the Go boundary: (1) env.DefineValue stores exactly the given reflect.Value under the name and env.GetValue returns exactly the stored one (identity; whole-map postconditions of C12); "
+       "(2) convertReflectValueToType returns its argument unchanged when its type already is the target type or the target is interface{}, and otherwise - when Go's reflect says the value is convertible - returns exactly reflect's own conversion to the target type; "
+       "(3) processCallReturnValues hands back all results of a Go function: none -> nil, one -> that value, and never manufactures an error for a Go function; (4) argument building evaluates the arguments once, in order (C07) and spreads the list the last operand denotes (C20). "
+       "NOT decided: element-wise slice/array/map conversion, nil -> zero value, string -> byte/rune, pointer conversion; the callback adapter (script function as Go func); that each argument is converted to ITS parameter type in all four call shapes; several results as a list; member syntax on Go values (fields, methods, pointer receivers). "
+       "These need a typed model of reflect (assignability/convertibility relation, method sets) that the contracts do not have.",
+  note=TRUST + "Assumed: reflect.Value.Convert is Go's conversion; reflect.Value.Type / Type.ConvertibleTo are functions of their arguments.",
+  technique="contract-based deductive verification: postconditions on the conversion and result-normalisation helpers, z3/cvc5",
+  ref="8.3 C11"),
  'C15': dict(
   text="Deductive proof, for all inputs, of the scanner/lexer half of the property: every Scanner method, Lexer.Lex/Error, Parse and ParseSrc "
        "is symbolically executed from the SSA of /repo's working tree against contracts kept in parser/zz_contracts_verif.go; obligations: memory "
